@@ -20,6 +20,10 @@ LETTERS = 'cdefgab'
 ACCS = ['', '', '', '#', '-', '##', '--', 'n', '###', '---']
 DISPLAYS = ['', '', '', 'X', 'x', 'i', 'I', 'j', 'Z', 'y', 'yy', 'Y', 'YY']
 BAR_TYPES = ['', '', '', '||', '|!', '|!:', '|:', '!|:', ':|!', '=:|!', ':|!|:', ':||:', ':!:', ':!!:', '=']
+# global comments and reference records: taken literally, whatever their spelling (no blank after the colon, language tags, lower-case keys,
+# keys that differ only in case, a tab inside, trailing blanks)
+GLOBALS = ['!!!COM: Bach', '!! a comment', '!!!OTL: Title, "x"', '!!', '!!!voices: 2', '!!!ONB: señor', '!!!COM:Bach', '!!!OTL@@DE:Herr Gott', '!!!OTL@EN:Lord',
+           '!!!com: lower', '!!!Comment: mixed', '!!!ENC:x', '!!! spaced', '!!!!four', '!!!COM: trailing  ', '!!!AGN:a; b', '!!!RDF**kern: i=editorial']
 HEADERS = ['**kern', '**text', '**dynam', '**dyn', '**harm', '**mxhm', '**fing', '**root']
 
 CLEFS = ['*clefG2', '*clefF4', '*clefC3', '*clefC1', '*clefC4', '*clefF3', '*clefC2', '*clefGv2', '*clefG^2', '*clefFvv4']
@@ -249,7 +253,7 @@ class DocGen:
         if '**kern' not in hs:
             hs[0] = '**kern'
         if self.unknown:
-            hs.insert(r.randrange(len(hs) + 1), r.choice(['**recip', '**silbe', '**cdata']))
+            hs.insert(r.randrange(len(hs) + 1), r.choice(['**recip', '**silbe', '**cdata', '**MIDI', '**IPA', '**Bhatk', '**Kern', '**TEXT', '**har', '**tex', '**dyna', '**fin', '**textual', '**harmony']))
         return hs
 
     def make(self):
@@ -263,7 +267,7 @@ class DocGen:
             rows.append({'kind': 'cells', 'rk': rk, 'cells': [fn(hs[s], s) for s in live], 'live': list(live)})
 
         def global_row():
-            rows.append({'kind': 'global', 'text': r.choice(['!!!COM: Bach', '!! a comment', '!!!OTL: Title, "x"', '!!', '!!!voices: 2', '!!!ONB: señor'])})
+            rows.append({'kind': 'global', 'text': r.choice(GLOBALS)})
 
         if self.comments:
             for _ in range(r.choice([0, 0, 1, 2])):
